@@ -506,8 +506,13 @@ def C01(tier, seed):
           ["DECIDED: in every state of every recorded history (streamed, merged, deserialized; HLL lg_k 4..12 all types/modes/estimators incl. "
            "out-of-order composite; CPC lg_k 4..12 HIP and ICON (merged); theta lg_k 5..12 incl. sampling) lb3 <= lb2 <= lb1 <= estimate <= ub1 <= ub2 <= ub3 "
            "(order-projected per event); a theta sketch at theta = 1.0 reports exactly the retained count; a sampling theta sketch whose updates were "
-           "all screened out is not empty and has a positive upper bound; Hll4/Hll6/Hll8 and to_sketch target types report bit-identical numbers",
-           "NOT DECIDED: absence of bias, spread consistent with the advertised RSE, and the 68/95/99.7% coverage rates are statements about a "
+           "all screened out is not empty and has a positive upper bound; Hll4/Hll6/Hll8 and to_sketch target types report bit-identical numbers; "
+           "a theta sketch claims exact mode exactly when the specification's theta is 1.0; the spread the one-sigma bounds advertise equals the "
+           "relative standard error of the estimator the specification state selects (HLL register mode: sqrt(ln 2)/sqrt k for HIP, sqrt(3 ln 2 - 1)/sqrt k "
+           "for the composite estimator of an out-of-order sketch, +-4%, lg_k to 13 (14 thorough); CPC: sqrt(ln 2 / 2)/sqrt k for HIP, ln 2/sqrt k for ICON "
+           "of a merged sketch, +-4% (+-17% for ICON below lg_k 8); theta: sqrt((1 - theta)/n) for n >= 400, within 12%) - so an interval cannot be "
+           "narrower than the estimator's own standard error, which is the deterministic part of 'coverage never materially below nominal'",
+           "NOT DECIDED: absence of bias, the empirical spread over random item sets, and the 68/95/99.7% coverage rates are statements about a "
            "probability distribution of floating-point outputs; a TLA+ specification has neither reals nor probability and no statistical engine is "
            "added beside it. A swapped interpolation-table row or a few-percent bias that keeps the bounds nested is not detected by this check"],
           "family recorders of HLL, HLL union, theta, CPC and CPC union with Check = {C01}: bounds and estimate observed after every update, union step, "
